@@ -417,6 +417,23 @@ func exercise(x *h.X, s *scheme, id uint32) {
 	if got, err := s.dec.Decrypt(ctB, buf2); err != nil || !bytes.Equal(got, pt) {
 		fail("info-buffer-reuse", "%s: context-info buffer rewritten in place between two Decrypt calls: the second ciphertext is rejected under its own context info: %v", s.cfg, err)
 	}
+	// the receive buffer: a ciphertext accepted a moment ago, then rewritten IN PLACE (same slice) into a forgery
+	ctBuf := bytes.Clone(ctB)
+	for _, pos := range []int{0, pl, pl + s.encLen/2, pl + s.encLen, len(ctBuf) - 1} {
+		if pos < 0 || pos >= len(ctBuf) {
+			continue
+		}
+		if got, err := s.dec.Decrypt(ctBuf, buf2); err != nil || !bytes.Equal(got, pt) {
+			fail("inplace-forgery", "%s: the genuine ciphertext is not accepted from a reused receive buffer: %v", s.cfg, err)
+			return
+		}
+		ctBuf[pos] ^= 0x01
+		if _, err := s.dec.Decrypt(ctBuf, buf2); err == nil {
+			fail("inplace-forgery", "%s: the receive buffer of the ciphertext accepted just before, byte %d flipped in place, is still accepted", s.cfg, pos)
+			return
+		}
+		ctBuf[pos] ^= 0x01
+	}
 }
 
 func main() {
